@@ -34,9 +34,9 @@ TIMING = ('chain_start', 'chain_end', 'chain_len_samples', 'chain_len_cycles', '
 class RefCycles:
     """Reference container: plain dictionaries over the wrap partition."""
 
-    def __init__(self, phase):
+    def __init__(self, phase, phase_step=1.5 * np.pi):
         self.phase = phase
-        self.lab, self.segs = ref_partition(phase, 1.5 * np.pi)
+        self.lab, self.segs = ref_partition(phase, phase_step)
         self.K = len(self.segs)
         self.metrics = {'is_good': np.array([int(good_pred(phase[s:e], np.pi / 12)) for s, e in self.segs])}
         self.sel = None       # boolean per cycle once a subset was picked
@@ -239,7 +239,8 @@ def gen_history(rng, ref):
             h.append({'op': 'compute', 'name': name, 'func': fn, 'vals': vals, 'mode': mode})
             if mode == 'cycle' and fn in ('max', 'mean', 'sum') and not np.isnan(vals).any() and rng.random() < .3:
                 # a value trace with rejected samples: a numpy masked array (isolated masked samples; cycles have >= 6 samples)
-                h[-1]['masked'] = sorted(set(int(i) for i in rng.choice(np.arange(0, n, 3), int(rng.integers(1, 6)))))
+                long_cycles = [(s0, e) for s0, e in ref.segs if e - s0 >= 4]
+                h[-1]['masked'] = sorted(set(int(rng.integers(s0 + 1, e - 1)) for s0, e in [long_cycles[int(j)] for j in rng.integers(0, len(long_cycles), int(rng.integers(1, 6)))])) if long_cycles else []      # at most one rejected sample per cycle
             if mode == 'cycle':
                 shadow[name] = ref.cycle_metric(vals_of(h[-1]), FUNCS[fn], 'cycle', None)
                 if name not in names:
@@ -354,10 +355,16 @@ def same_vals(a, b, tol=1e-12):
 
 def run_history(ctx, phase, hist, case):
     from emd import cycles as C
-    ref = RefCycles(phase)
+    step = float(case.get('phase_step', 1.5 * np.pi))
+    ref = RefCycles(phase, step)
     K = ref.K
     with quiet():
-        real = {'cache': C.Cycles(phase.copy(), use_cache=True), 'nocache': C.Cycles(phase.copy(), use_cache=False)}
+        if 'phase_step' in case:
+            # the containers' own constructor option (the jump that starts a new cycle): cache on and off must agree for every value
+            real = {'cache': C.Cycles(phase.copy(), phase_step=step, use_cache=True), 'nocache': C.Cycles(phase.copy(), phase_step=step, use_cache=False)}
+            ctx.count('containers_with_phase_step:%.2fpi' % (step / np.pi))
+        else:
+            real = {'cache': C.Cycles(phase.copy(), use_cache=True), 'nocache': C.Cycles(phase.copy(), use_cache=False)}
     V = ctx.violation
     for which, cy in real.items():
         if cy.ncycles != K or not np.array_equal(np.asarray(cy.cycle_vect).reshape(-1), ref.lab):
@@ -610,7 +617,7 @@ def run_history(ctx, phase, hist, case):
 
 def check_case(ctx, case):
     phase, hist = case['phase'], case['history']
-    ref = RefCycles(phase)
+    ref = RefCycles(phase, float(case.get('phase_step', 1.5 * np.pi)))
     sel = any(h['op'] == 'pick' for h in hist)
     ctx.case(digest(phase, repr([(h['op'], h.get('conds'), h.get('name')) for h in hist])), sel)
     ok = run_history(ctx, phase, hist, case)
@@ -622,10 +629,11 @@ def gen_case(rng):
     while True:
         r = rng.random()
         phase = gens.synthetic_phase(rng, noise=(0.0 if r < .5 else float(rng.uniform(0, .25))), reversals=bool(r > .75))
-        ref = RefCycles(phase)
+        step = float(gens.pick(rng, [1.5 * np.pi, 1.5 * np.pi, np.pi, 1.9 * np.pi]))
+        ref = RefCycles(phase, step)
         if ref.K >= 1:
             break
-    return {'kind': 'history', 'phase': phase, 'history': gen_history(rng, ref)}
+    return {'kind': 'history', 'phase': phase, 'history': gen_history(rng, ref), 'phase_step': step}
 
 
 def run_shard(ctx):
